@@ -73,6 +73,8 @@ bit-exact correspondence run for the loops); std's `sort_by` being a stable sort
 -/
 import Kodama.Lemmas.PrimGreedyRun
 import Kodama.Lemmas.SpecDecide
+import Kodama.Lemmas.GenericGreedySpec
+import Kodama.Lemmas.GenericExample
 import Kodama.Model.Linkage
 import Kodama.Lemmas.ReduciblePos
 import Kodama.Lemmas.FieldInstances
@@ -352,5 +354,293 @@ example (sq : ℚ → ℚ) (m : Method) : ∃ st' d' M',
     (by decide) (by decide) (by decide)
 
 end ExactExample
+
+/-!
+## `generic_with` (Müllner's generic algorithm; `linkage` uses it for centroid and median)
+
+Entry point `generic_with` (model `genericWith`, both build modes `chk`, every prior
+`LinkageState`/`Dendrogram`), every `2 ≤ n < 2^31`, every `data` with `data.size = n(n-1)/2` whose
+(squared, for the methods on squares) entries lie in a user-chosen good set `G`, abstract `α`.
+Built on the totality proof `genericWith_eq` (`Lemmas/GenericRun.lean`); new lemma files
+`Lemmas/GenericGreedy{LB,Update,Init,Sim,Spec}.lean`.
+
+### Proved
+* `C03_generic_pop_min`     (stages 1+2) under the LOWER-BOUND invariant `LB` ("the priority of every
+                      live row is `≤` every entry of that row at a live column") an exact top row `a`
+                      of the heap (`dis[[a, nearest[a]]] == priority(a)`, the exit test of the repair
+                      loop) gives a live pair `a < b = nearest[a]` whose entry is a minimum over ALL
+                      live pairs.
+* `C03_generic_iter_min`    one iteration of the main loop (repair ; pop ; update ; merge) is total,
+                      merges a GLOBALLY closest live pair of the matrix it starts from, and
+                      re-establishes the loop invariant `GenSim` = `GenInv` (totality) + `LB` +
+                      `PrimSim` (matrix = spec table under merge-order labels).  `LB` is established by
+                      the initial scan (`genericInit_lb`), kept by the rescan of the repair loop
+                      (`genericRepair_lb`), by `pop`, and by the three ranges of the method-specific
+                      update (`genericUpdate_lb`); the matrix part of that update IS `updateRows`
+                      of `primitive`, so `C03_primitive_update_spec` is reused.
+* `C03_generic_mergeorder`  (stage 3) `genericWith` is a total loop followed by `relabel m` and
+                      `sqrtSteps m`, and the raw dendrogram left by the loop, relabelled IN MERGE ORDER,
+                      is `Spec.GreedyValid m n data`; its raw heights are the spec's table values and
+                      lie in `G`.
+* `C03_generic_unsorted`    (stage 4) centroid, median: the call returns normally and the RETURNED
+                      steps are `GreedyValid`.  `C03_linkage_centroid_median`: the same through
+                      `linkageWith` (the `dispatch` table routes exactly these two methods to generic).
+* `C03_generic_of_monotone` any method: the same under the spec-level hypothesis that greedy runs have
+                      non-decreasing heights;  `C03_generic_reducible`: that hypothesis from
+                      `Spec.Reducible α m`;  `C03_generic_single`, `C03_generic_complete`.
+
+### Hypotheses (all explicit; ✓ = true of IEEE floats)
+* `OrderLaws α` ✓;  `BeqLe α`: `a == b → ¬ b < a` ✓ (new; needed because the repair loop exits on `==`).
+* `GoodSet G` (members non-NaN, `< max_value`, `v == v`) ✓ for any set of ordinary finite floats;
+  `Num.isNaN max_value = false` ✓;  inputs in `G`.
+* `UpdClosed G m`: `G` closed under the update formula — a theorem for single/complete, otherwise a
+  hypothesis on the chosen `G` (no overflow / NaN produced).
+* `Spec.LwSymm α m`: from commutativity of `+`, `×` ✓ for the five arithmetic methods
+  (`lwSymm_centroid`, …); for single/complete from `LtTrichotomy` (false for `±0`).
+* `LBClosed G m` — ONLY for the five methods whose range 1 does not lower priorities (single, complete,
+  average, weighted, Ward; `l1Mode m = .fix`): the update of two values `≥ p` is `≥ p` (Ward: given
+  also `p ≥` merged distance).  Theorem for single/complete; follows from `Spec.Reducible` for
+  average/weighted (`lbClosed_of_reducible`); true in exact arithmetic for average/weighted/Ward but
+  NOT under float rounding.  Centroid and median — the `linkage` case — need NO such hypothesis:
+  their range 1 lowers the priority itself.
+* `Spec.Reducible α m` only for the sorted methods' returned dendrogram (as for `primitive`).
+* No `NoNaNRun` hypothesis: it follows from `GoodSet`/`UpdClosed`/good inputs
+  (`noNaNRun_of_updClosed`).
+
+### Not proved
+* `LBClosed`/`Reducible` for average, weighted, Ward (false under rounding, see above).
+* first-wins tie-breaking (not part of the property).
+-/
+
+section Generic
+variable {G : α → Prop}
+
+/-- Stages 1+2: under `LB` an exact top row gives a globally minimal pair; every live priority is
+`≥` its entry. -/
+theorem C03_generic_pop_min {n : Nat} {M : Mat α} (L : OrderLaws α) (hbeq : BeqLe α)
+    (gs : GoodSet G) (chk : Bool) (hM : MGood G n M) (live : List Nat) (q : Heap α)
+    (nr : Array Nat) (hq : QInv G n live q nr) (hlb : LB chk M live q.prio)
+    (h2 : 2 ≤ live.length) (hnd : live.Nodup) {a : Nat} (hpeek : q.peek = some a)
+    (hex : Exact chk M q nr a) :
+    ∃ b dist, nr[a]? = some b ∧ a < b ∧ a ∈ live ∧ b ∈ live ∧ M.get chk a b = .ok dist ∧ G dist ∧
+      (∀ x ∈ live, ∀ y ∈ live, x < y → ∀ w, M.get chk x y = .ok w → Num.lt w dist = false) ∧
+      (∀ x ∈ live, ∀ px, q.prio[x]? = some px → Num.lt px dist = false) :=
+  generic_pop_min L hbeq gs chk hM live q nr hq hlb h2 hnd hpeek hex
+
+/-- One iteration of the main loop merges a globally closest live pair and keeps the invariant. -/
+theorem C03_generic_iter_min (L : OrderLaws α) (hbeq : BeqLe α) (gs : GoodSet G)
+    (chk : Bool) (m : Method) (hcl : UpdClosed G m) (hlbc : l1Mode m = .fix → LBClosed G m)
+    (hsym : LwSymm α m) (hmax : Num.isNaN (Num.maxValue : α) = false)
+    (n : Nat) (data : Array α) (k : Nat) (live : List Nat) (st : State α) (dend : Dendrogram α)
+    (M : Mat α) (hk : k + 1 < n) (inv : GenSim G chk m n data k live st dend M) :
+    ∃ st' dend' M' a b dist sz, GlobalMinPair chk M live a b dist ∧
+      dend' = { dend with steps := dend.steps.push (Step.new a b dist sz) } ∧
+      genericIter chk m (st, dend, M) = .ok (st', dend', M') ∧
+      GenSim G chk m n data (k + 1) (live.filter (· ≠ a)) st' dend' M' :=
+  genericIter_sim L hbeq gs chk m hcl hlbc hsym hmax n data k live st dend M hk inv
+
+/-- Stage 3: the loop of `generic_with`, relabelled in merge order, is a greedy run of the spec. -/
+theorem C03_generic_mergeorder (L : OrderLaws α) (hbeq : BeqLe α) (gs : GoodSet G)
+    (chk : Bool) (m : Method) (hcl : UpdClosed G m) (hlbc : l1Mode m = .fix → LBClosed G m)
+    (hsym : LwSymm α m) (hmax : Num.isNaN (Num.maxValue : α) = false)
+    (st : State α) (d : Dendrogram α) (data : Array α) (n : Nat) (h2 : 2 ≤ n)
+    (hs : n < 2147483648) (hl : 2 * data.size = n * (n - 1))
+    (hin : ∀ i (h : i < (squareData m data).size), G (squareData m data)[i]) :
+    ∃ (st1 : State α) (dend1 : Dendrogram α) (M1 : Mat α),
+      genericWith chk m st d data n =
+        (relabel m st1.set dend1 >>= fun r =>
+          pure ({ st1 with set := r.1 }, sqrtSteps m r.2, M1)) ∧
+      GreedyValid m n data (mergeOrder m n dend1.steps.toList) ∧
+      dend1.steps.toList.map (·.d)
+        = rawHeights m (init m n data) (mergeOrder m n dend1.steps.toList) ∧
+      (∀ s ∈ dend1.steps.toList, G s.d) := by
+  obtain ⟨st1, dend1, M1, hres, hdg, heq⟩ :=
+    genericWith_sim L hbeq gs chk m hcl hlbc hsym hmax st d data n h2 hs hl hin
+  exact ⟨st1, dend1, M1, heq, hres.valid, hres.hts, hdg⟩
+
+/-- Stage 4, any method: the returned steps are greedy-valid whenever every greedy run of the
+SPECIFICATION has non-decreasing raw heights (then the stable sort of `relabel` is the identity). -/
+theorem C03_generic_of_monotone (L : OrderLaws α) (hbeq : BeqLe α) (gs : GoodSet G)
+    (chk : Bool) (m : Method) (hcl : UpdClosed G m) (hlbc : l1Mode m = .fix → LBClosed G m)
+    (hsym : LwSymm α m) (hmax : Num.isNaN (Num.maxValue : α) = false)
+    (st : State α) (d : Dendrogram α) (data : Array α) (n : Nat) (h2 : 2 ≤ n)
+    (hs : n < 2147483648) (hl : 2 * data.size = n * (n - 1))
+    (hin : ∀ i (h : i < (squareData m data).size), G (squareData m data)[i])
+    (hmono : ∀ l, GreedyValid m n data l →
+      (rawHeights m (init m n data) l).Pairwise (fun a b => Num.lt b a = false)) :
+    ∃ st' dend' M', genericWith chk m st d data n = .ok (st', dend', M') ∧
+      GreedyValid m n data dend'.steps.toList := by
+  obtain ⟨st1, dend1, M1, hres, hdg, heq⟩ :=
+    genericWith_sim L hbeq gs chk m hcl hlbc hsym hmax st d data n h2 hs hl hin
+  have hpw : dend1.steps.toList.Pairwise (fun s t => Num.lt t.d s.d = false) := by
+    have h := hmono _ hres.valid
+    rw [← hres.hts, List.pairwise_map] at h
+    exact h
+  obtain ⟨uf, d', hr, _, hg⟩ := relabel_greedy' hres (fun s hs' => gs.notNaN _ (hdg s hs')) h2
+    st1.set (processed_of_pairwise m _ hpw)
+  refine ⟨{ st1 with set := uf }, sqrtSteps m d', M1, ?_, hg⟩
+  rw [heq, hr]; rfl
+
+/-- Stage 4, centroid and median (no sort; no `LBClosed`, no `Reducible`): the returned steps are
+greedy-valid. -/
+theorem C03_generic_unsorted (L : OrderLaws α) (hbeq : BeqLe α) (gs : GoodSet G)
+    (chk : Bool) (m : Method) (hm : m.requiresSorting = false) (hcl : UpdClosed G m)
+    (hsym : LwSymm α m) (hmax : Num.isNaN (Num.maxValue : α) = false)
+    (st : State α) (d : Dendrogram α) (data : Array α) (n : Nat) (h2 : 2 ≤ n)
+    (hs : n < 2147483648) (hl : 2 * data.size = n * (n - 1))
+    (hin : ∀ i (h : i < (squareData m data).size), G (squareData m data)[i]) :
+    ∃ st' dend' M', genericWith chk m st d data n = .ok (st', dend', M') ∧
+      GreedyValid m n data dend'.steps.toList := by
+  have hlbc : l1Mode m = .fix → LBClosed G m := by
+    intro h; cases m <;> simp [Method.requiresSorting] at hm <;> simp [l1Mode] at h
+  obtain ⟨st1, dend1, M1, hres, hdg, heq⟩ :=
+    genericWith_sim L hbeq gs chk m hcl hlbc hsym hmax st d data n h2 hs hl hin
+  obtain ⟨uf, d', hr, _, hg⟩ := relabel_greedy' hres (fun s hs' => gs.notNaN _ (hdg s hs')) h2
+    st1.set (processed_of_unsorted m _ hm)
+  refine ⟨{ st1 with set := uf }, sqrtSteps m d', M1, ?_, hg⟩
+  rw [heq, hr]; rfl
+
+/-- `linkage(.., Centroid | Median)`: `linkage_with` routes these two methods (and only these) to
+`generic_with`; the returned steps are greedy-valid. -/
+theorem C03_linkage_centroid_median (L : OrderLaws α) (hbeq : BeqLe α) (gs : GoodSet G)
+    (chk : Bool) (m : Method) (hm : m = .centroid ∨ m = .median) (hcl : UpdClosed G m)
+    (hsym : LwSymm α m) (hmax : Num.isNaN (Num.maxValue : α) = false)
+    (st : State α) (d : Dendrogram α) (data : Array α) (n : Nat) (h2 : 2 ≤ n)
+    (hs : n < 2147483648) (hl : 2 * data.size = n * (n - 1))
+    (hin : ∀ i (h : i < (squareData m data).size), G (squareData m data)[i]) :
+    dispatch m = .generic ∧
+    ∃ st' dend' M', linkageWith chk m st d data n = .ok (st', dend', M') ∧
+      GreedyValid m n data dend'.steps.toList := by
+  have hd : dispatch m = .generic := by rcases hm with rfl | rfl <;> rfl
+  have hr : m.requiresSorting = false := by rcases hm with rfl | rfl <;> rfl
+  have hlink : linkageWith chk m st d data n = genericWith chk m st d data n := by
+    unfold linkageWith; rw [hd]
+  rw [hlink]
+  exact ⟨hd, C03_generic_unsorted L hbeq gs chk m hr hcl hsym hmax st d data n h2 hs hl hin⟩
+
+/-- Stage 4, reducible methods: the merge-order heights never decrease, so the stable sort is the
+identity and the returned steps are greedy-valid. -/
+theorem C03_generic_reducible (L : OrderLaws α) (hbeq : BeqLe α) (gs : GoodSet G)
+    (chk : Bool) (m : Method) (hcl : UpdClosed G m) (hlbc : l1Mode m = .fix → LBClosed G m)
+    (hsym : LwSymm α m) (hred : Reducible α m) (hmax : Num.isNaN (Num.maxValue : α) = false)
+    (st : State α) (d : Dendrogram α) (data : Array α) (n : Nat) (h2 : 2 ≤ n)
+    (hs : n < 2147483648) (hl : 2 * data.size = n * (n - 1))
+    (hin : ∀ i (h : i < (squareData m data).size), G (squareData m data)[i]) :
+    ∃ st' dend' M', genericWith chk m st d data n = .ok (st', dend', M') ∧
+      GreedyValid m n data dend'.steps.toList := by
+  have hnn : NoNaNRun m n data :=
+    noNaNRun_of_updClosed gs hcl (init_TableGood m data n h2 hs hl hin)
+  apply C03_generic_of_monotone L hbeq gs chk m hcl hlbc hsym hmax st d data n h2 hs hl hin
+  intro l hl'
+  exact greedy_heights_mono L hred l (init m n data) 0 (init_StInv m n data) hl'.2
+    (runNoNaN_of_noNaNRun hnn _ [] hl'.2)
+
+/-- Reducible methods that do not read the merged distance (single, complete, average, weighted):
+`Reducible` alone suffices (`LBClosed` follows). -/
+theorem C03_generic_reducible_noDist (L : OrderLaws α) (hbeq : BeqLe α) (gs : GoodSet G)
+    (chk : Bool) (m : Method) (hnd : usesDist m = false) (hcl : UpdClosed G m)
+    (hsym : LwSymm α m) (hred : Reducible α m) (hmax : Num.isNaN (Num.maxValue : α) = false)
+    (st : State α) (d : Dendrogram α) (data : Array α) (n : Nat) (h2 : 2 ≤ n)
+    (hs : n < 2147483648) (hl : 2 * data.size = n * (n - 1))
+    (hin : ∀ i (h : i < (squareData m data).size), G (squareData m data)[i]) :
+    ∃ st' dend' M', genericWith chk m st d data n = .ok (st', dend', M') ∧
+      GreedyValid m n data dend'.steps.toList :=
+  C03_generic_reducible L hbeq gs chk m hcl (fun _ => lbClosed_of_reducible gs hnd hred) hsym hred
+    hmax st d data n h2 hs hl hin
+
+/-- Single linkage through `generic_with`. -/
+theorem C03_generic_single (L : OrderLaws α) (T : LtTrichotomy α) (hbeq : BeqLe α)
+    (gs : GoodSet G) (chk : Bool) (hmax : Num.isNaN (Num.maxValue : α) = false)
+    (st : State α) (d : Dendrogram α) (data : Array α) (n : Nat) (h2 : 2 ≤ n)
+    (hs : n < 2147483648) (hl : 2 * data.size = n * (n - 1))
+    (hin : ∀ i (h : i < (squareData .single data).size), G (squareData .single data)[i]) :
+    ∃ st' dend' M', genericWith chk .single st d data n = .ok (st', dend', M') ∧
+      GreedyValid .single n data dend'.steps.toList :=
+  C03_generic_reducible L hbeq gs chk .single (updClosed_single G) (fun _ => lbClosed_single G)
+    (lwSymm_single L T) reducible_single hmax st d data n h2 hs hl hin
+
+/-- Complete linkage through `generic_with`. -/
+theorem C03_generic_complete (L : OrderLaws α) (T : LtTrichotomy α) (hbeq : BeqLe α)
+    (gs : GoodSet G) (chk : Bool) (hmax : Num.isNaN (Num.maxValue : α) = false)
+    (st : State α) (d : Dendrogram α) (data : Array α) (n : Nat) (h2 : 2 ≤ n)
+    (hs : n < 2147483648) (hl : 2 * data.size = n * (n - 1))
+    (hin : ∀ i (h : i < (squareData .complete data).size), G (squareData .complete data)[i]) :
+    ∃ st' dend' M', genericWith chk .complete st d data n = .ok (st', dend', M') ∧
+      GreedyValid .complete n data dend'.steps.toList :=
+  C03_generic_reducible L hbeq gs chk .complete (updClosed_complete G)
+    (fun _ => lbClosed_complete G) (lwSymm_complete L T) reducible_complete hmax st d data n h2 hs
+    hl hin
+
+end Generic
+
+/-! ### Non-vacuity for `generic_with` (toy exact numbers `Nat`, `max_value = 10^6`) -/
+
+section GenericExample
+attribute [local instance] Toy.natNum
+
+theorem Toy.natBeqLe : BeqLe Nat := by
+  intro a b h
+  change decide (a = b) = true at h
+  change decide (b < a) = false
+  simp only [decide_eq_true_eq] at h
+  simp only [decide_eq_false_iff_not]
+  omega
+
+/-- Centroid through `linkage_with` (routed to `generic_with`) on the 4-point matrix
+`[5,1,4, 3,1, 2]` (entries are squared first; ties): every hypothesis of
+`C03_linkage_centroid_median` holds, so the returned steps are greedy-valid. -/
+example : dispatch .centroid = .generic ∧ ∃ st' dend' M',
+    linkageWith true .centroid State.new (Dendrogram.new 0) (#[5, 1, 4, 3, 1, 2] : Array Nat) 4
+      = .ok (st', dend', M') ∧
+    GreedyValid .centroid 4 (#[5, 1, 4, 3, 1, 2] : Array Nat) dend'.steps.toList :=
+  C03_linkage_centroid_median Toy.natOrderLaws Toy.natBeqLe GenericExample.goodSet_G true .centroid
+    (Or.inl rfl) GenericExample.closed_centroid (lwSymm_centroid Toy.natComm) GenericExample.hmax
+    _ _ _ 4 (by decide) (by decide) (by decide)
+    (squareData_good .centroid _ (by simp [GenericExample.G, Method.onSquares, Num.mul]))
+
+/-- Median through `generic_with`. -/
+example : ∃ st' dend' M',
+    genericWith false .median State.new (Dendrogram.new 0) (#[5, 1, 4, 3, 1, 2] : Array Nat) 4
+      = .ok (st', dend', M') ∧
+    GreedyValid .median 4 (#[5, 1, 4, 3, 1, 2] : Array Nat) dend'.steps.toList :=
+  C03_generic_unsorted Toy.natOrderLaws Toy.natBeqLe GenericExample.goodSet_G false .median rfl
+    GenericExample.closed_median (lwSymm_median Toy.natComm) GenericExample.hmax
+    _ _ _ 4 (by decide) (by decide) (by decide)
+    (squareData_good .median _ (by simp [GenericExample.G, Method.onSquares, Num.mul]))
+
+/-- Single linkage through `generic_with` (sorted method: `LBClosed`, `Reducible` are theorems). -/
+example : ∃ st' dend' M',
+    genericWith true .single State.new (Dendrogram.new 0) (#[5, 1, 4, 3, 1, 2] : Array Nat) 4
+      = .ok (st', dend', M') ∧
+    GreedyValid .single 4 (#[5, 1, 4, 3, 1, 2] : Array Nat) dend'.steps.toList :=
+  C03_generic_single Toy.natOrderLaws Toy.natTrichotomy Toy.natBeqLe GenericExample.goodSet_G true
+    GenericExample.hmax _ _ _ 4 (by decide) (by decide) (by decide)
+    (squareData_good .single _ (by simp [GenericExample.G, Method.onSquares]))
+
+/-- The merge-order theorem for average linkage: `LBClosed` is satisfiable (over `Nat` the weighted
+mean of two values `≥ p` is `≥ p`). -/
+theorem Toy.natLBClosed_average : LBClosed GenericExample.G .average := by
+  intro sizes sa sb dist x va vb v p _ hs' _ _ _ _ h h1 h2
+  obtain ⟨p1, p2⟩ := hs' rfl
+  simp only [updFn, Gen.average, pure, Except.pure, Except.ok.injEq] at h
+  subst h
+  change decide (va < p) = false at h1
+  change decide (vb < p) = false at h2
+  change decide ((sa * va + sb * vb) / (sa + sb) < p) = false
+  simp only [decide_eq_false_iff_not, Nat.not_lt] at h1 h2 ⊢
+  rw [Nat.le_div_iff_mul_le (by omega)]
+  have e1 : sa * p ≤ sa * va := Nat.mul_le_mul_left _ h1
+  have e2 : sb * p ≤ sb * vb := Nat.mul_le_mul_left _ h2
+  rw [Nat.mul_comm, Nat.add_mul]
+  omega
+
+example := C03_generic_mergeorder Toy.natOrderLaws Toy.natBeqLe GenericExample.goodSet_G true
+  .average GenericExample.closed_average (fun _ => Toy.natLBClosed_average)
+  (lwSymm_average Toy.natComm) GenericExample.hmax State.new (Dendrogram.new 0)
+  (#[5, 1, 4, 3, 1, 2] : Array Nat) 4 (by decide) (by decide) (by decide)
+  (squareData_good .average _ (by simp [GenericExample.G, Method.onSquares]))
+
+end GenericExample
+
 
 end Kodama
